@@ -102,7 +102,7 @@ static void spectrum_cases(int d, const std::vector<double>& E, const std::vecto
     }
   }
   // (c) interval average
-  const double IV[][2] = {{0, 1}, {-1, 2}, {0.5, 10}, {0, 1e-3}, {-1.5, 1.5}, {-0.25, 0.25}};   // incl. intervals symmetric about 0 (every sine average vanishes exactly)
+  const double IV[][2] = {{0, 1}, {-1, 2}, {0.5, 10}, {0, 1e-3}, {-1.5, 1.5}, {-0.25, 0.25}, {134217728.0, 134217729.0}, {1e6, 1e6 + 0.5}, {-3e5, -3e5 + 2}, {4096, 4096 + 1.0 / 1024}};   // incl. intervals symmetric about 0 (every sine average vanishes exactly)
   std::vector<std::vector<double>> probes = {probe(d, 0), probe(d, 1)};
   for (auto& iv : IV) {
     double t0 = iv[0], t1 = iv[1], range = t1 - t0;
@@ -120,9 +120,14 @@ static void spectrum_cases(int d, const std::vector<double>& E, const std::vecto
     std::vector<cd> fac(np);
     for (int p = 0; p < np; p++) {
       double al = w[p];
-      cd f = (al == 0) ? cd(1, 0) : (std::exp(cd(0, al * t1)) - std::exp(cd(0, al * t0))) / (cd(0, al) * range);
+      // exact average in a form without cancellation: exp(i al tm) * sin(al h)/(al h), tm the midpoint, h the half-width (long double)
+      cd f(1, 0);
+      if (al != 0) { long double tm = ((long double)t0 + (long double)t1) / 2, hh = ((long double)t1 - (long double)t0) / 2, x = (long double)al * hh, sc = sinl(x) / x, ph = (long double)al * tm; f = cd((double)(cosl(ph) * sc), (double)(sinl(ph) * sc)); }
       fac[p] = f;
-      double tol = (32 + 8 * std::fabs(al) * std::max(std::fabs(t0), std::fabs(t1))) * ref::EPS / std::min(1.0, al == 0 ? 1.0 : std::fabs(al) * range);
+      double tmax = std::max(std::fabs(t0), std::fabs(t1));
+      // forward error of the average: a few roundings plus the phase uncertainty |delta alpha|*t of levels known to d*eps*Emax
+      // (no amplification by 1/(alpha*range): nearly coincident levels and narrow far-away intervals are ordinary inputs)
+      double tol = (32 + 8 * std::fabs(al) * tmax + 8 * d * Emax * tmax) * ref::EPS;
       double e = std::max(std::fabs(buf[p] - f.real()), std::fabs(buf[np + p] - f.imag()));
       maxstat("interval_err/tol", e / tol);
       if (!(e <= tol)) { ok = false; violation("PrepareEvolve(t0,t1):wrong-average" + ds, J().i("d", d).arr("spectrum", E).num("t0", t0).num("t1", t1).i("pair", p).i("j", pairs[p].j).i("k", pairs[p].k).num("cos_avg", buf[p]).num("sin_avg", buf[np + p]).num("want_cos", f.real()).num("want_sin", f.imag()).done()); break; }
